@@ -598,7 +598,7 @@ class Unit:
             vs = out.line
             for ltxt in text.split('\n'):
                 out.raw(ltxt, ('unit', req_lines[0]))
-            info['vac'].append({'fn': qual, 'probe': vname, 'out_lines': (vs, out.line)})
+            info['vac'].append({'fn': qual, 'probe': vname, 'out_lines': (vs, out.line - 1)})
         return res, contracted
 
 
